@@ -94,7 +94,9 @@ class FuncInfo:
 
 def _scope(ctx):
     files = [f for f in ctx.py.all_py("mdtraj/formats")]
-    files += ["mdtraj/utils/zipped.py", "mdtraj/core/trajectory.py"]
+    files += ["mdtraj/core/trajectory.py"]
+    # helpers the savers may hand the user's path to (open_maybe_zipped today; a clean-up context manager tomorrow)
+    files += [f for f in ctx.py.all_py("mdtraj/utils") if f.count("/") == 2]
     return files
 
 
@@ -153,6 +155,15 @@ def _path_aliases(fn):
                         al[t] = c
                         changed = True
     return al
+
+
+def _fresh_temporary(fn, e):
+    """Is the path expression a local that only ever holds what tempfile.mkdtemp / mkstemp / NamedTemporaryFile / TemporaryDirectory returned?"""
+    d = dotted(e)
+    if d is None or "." in d:
+        return False
+    vals = [n.value for n in walk_no_nested(fn) if isinstance(n, ast.Assign) and any(dotted(t) == d for t in n.targets)]
+    return bool(vals) and all(isinstance(v, ast.Call) and (call_name(v) or "").startswith("tempfile.") for v in vals)
 
 
 def names_of(e):
@@ -347,6 +358,9 @@ def check(ctx):
             continue
         if not has_force:
             for (n, c) in sites:
+                if c[1] is not None and _fresh_temporary(fn, c[1]):
+                    ctx.note("C20-R1", n, rel, q, "%s(%s)" % (call_name(n), _modestr(c)), "the path comes from tempfile.*: a fresh name, not a file of the user")
+                    continue
                 # destructive site in a function with no overwrite parameter: either a lazily
                 # opened handle of a guarded object, or a read-mode open
                 if c[0] == "mode" and not world_mode_is_write({}, c[2]):
@@ -469,6 +483,23 @@ def check(ctx):
     for (rel, q), fi in sorted(funcs.items()):
         if "force_overwrite" in fi.params and (rel, q) not in plumb:
             plumb.append((rel, q))
+    # Trajectory.save: every way to return normally goes through the format's saver (which carries the existence check and the truncation) with the
+    # caller's path and options - an early return (nothing to write, unknown option ...) would neither refuse an existing file nor replace it
+    sv = funcs.get((tr.rel, "Trajectory.save"))
+    if sv is None:
+        raise AnalysisError("Trajectory.save not found")
+    cfg_s = CFG(sv.fn)
+    saver_nodes = set()
+    for n_ in cfg_s.nodes():
+        for e_ in cfg_s.own_exprs(n_):
+            for c_ in ast.walk(e_):
+                if isinstance(c_, ast.Call) and isinstance(c_.func, ast.Name) and c_.func.id not in ("_get_extension", "OSError", "str", "print") and c_.args and dotted(c_.args[0]) == "filename" \
+                        and any(k_.arg is None for k_ in c_.keywords):
+                    saver_nodes.add(n_)
+    ok_s = bool(saver_nodes) and cfg_s.exit not in cfg_s.reachable(cfg_s.entry, removed=saver_nodes)
+    ctx.decide(ok_s, "C20-R2", sv.fn, tr.rel, "Trajectory.save", "every normal exit passes through saver(filename, **kwargs)", "",
+               "Trajectory.save can return without calling the saver of the format: with force_overwrite=False an existing file is not refused, with True its old content stays" if saver_nodes else
+               "the call saver(filename, **kwargs) was not found in Trajectory.save")
     for (rel, q) in plumb:
         fi = funcs[(rel, q)]
         fn = fi.fn
